@@ -364,7 +364,7 @@ func init() {
 		RealStub: map[string]string{"verify.RawTdxQuote": "real", "pcs URL builders": "real (checked by the stub's own URL parser)", "Intel PCS": "stub (recording)", "clock": "Options.Now from the simulated clock; part C: testing/synctest fake clock read by the library's time.Now"},
 		Runs: func(tier string) int {
 			if tier == "thorough" {
-				return 8000
+				return 30000
 			}
 			return 800
 		},
